@@ -290,6 +290,27 @@ func applyOp(b []byte, op string) ([]byte, bool) {
 		return append(out, b[i:]...), true
 	case "crlf":
 		return bytes.ReplaceAll(b, []byte("\n"), []byte("\r\n")), true
+	case "long-line": // a line longer than any line buffer (70000 characters, no newline inside) before line i
+		lines := bytes.SplitAfter(b, []byte("\n"))
+		i := num(1)
+		if i < 0 || i > len(lines) {
+			return b, false
+		}
+		long := append(bytes.Repeat([]byte("x"), 70000), '\n')
+		if num(2) == 1 {
+			long = append([]byte("vertex 1 2 "), long...) // a vertex line whose last number is endless
+		}
+		var out []byte
+		for k, ln := range lines {
+			if k == i {
+				out = append(out, long...)
+			}
+			out = append(out, ln...)
+		}
+		if i == len(lines) {
+			out = append(out, long...)
+		}
+		return out, true
 	case "drop-line", "dup-line", "cut-line", "stray-token", "bad-number":
 		lines := bytes.SplitAfter(b, []byte("\n"))
 		i := num(1)
